@@ -143,8 +143,15 @@ CLAIMED["C10"] = dict(
     note=TRUST + "Thin clauses on the closures of createConnHandler, written from the property statement after a probe showed a hung client-streaming call (fixed). Not decided: the observational equivalence itself, the interleavings of the two pumps and which side fails first (goroutines are abstracted by the generator: each closure is verified as a sequential function, its captured variables as heap cells), grpc-go's streams, response header metadata, message contents (dynamicpb round trip).",
     ref="DESIGN.md sections 5 C10 and 10.3")
 
+CLAIMED["C03"] = dict(
+    text=("Partial proof of larking's own share of the reconstruction (not of the round trip): in parseParam every arm of the kind switch builds the value with the constructor of the field's kind "
+          "(bool/int32/int64/uint32/uint64/float/double/string/bytes/enum/message values only for fields of those kinds, eleven call-site clauses), and the function contains no integer conversion that can change a value, "
+          "so text that does not fit the field's width is refused by the typed decoder and never truncated afterwards; fieldPath resolves a dotted path only through singular message fields of the request type and params.set "
+          "applies the parsed values in order without panicking (contracts shared with C07/C09)."),
+    note=TRUST + "Not decided: what encoding/json, protojson, base64 and gzip accept or produce (the conversion of the text itself), the body codecs, equality of the delivered message with the one sent. These are library behaviour; a contract would axiomatise the libraries, not decide larking's code (DESIGN 5 C03).",
+    ref="DESIGN.md section 5 C03")
+
 NA = {
-    "C03": "round trip through encoding/json, protojson, base64, gzip and protobuf reflection: larking's share is a kind-dispatch table whose every arm delegates to a dependency; a contract would axiomatise the libraries, not decide the code (DESIGN 5 C03)",
     "C13": "pool reuse, goroutine lifetimes and data races are statements over schedules; no permission/ownership logic for sync.Pool hand-offs, go/sync are dropped by the generator (DESIGN 5 C13)",
     "C20": "behaviour of net/http.ServeMux longest-pattern matching, http.StripPrefix and h2c; larking contributes a six-line loop without arithmetic (DESIGN 5 C20)",
 }
